@@ -8,39 +8,6 @@ import EnvVerif.Lemmas.CodecLaws
 namespace EnvVerif
 open Env
 
-/-! ### big-endian bytes -/
-
-theorem beNat_append_single (b : Bytes) (x : UInt8) : beNat (b ++ [x]) = beNat b * 256 + x.toNat := by
-  simp [beNat, List.foldl_append]
-
-theorem beBytes_length : ∀ (len n : Nat), (beBytes len n).length = len
-  | 0, _ => rfl
-  | len + 1, n => by simp [beBytes, beBytes_length len]
-
-theorem beNat_beBytes : ∀ (len n : Nat), beNat (beBytes len n) = n % 256 ^ len
-  | 0, n => by simp [beBytes, beNat, Nat.mod_one]
-  | len + 1, n => by
-    rw [beBytes, beNat_append_single, beNat_beBytes len]
-    have h1 : (UInt8.ofNat (n % 256)).toNat = n % 256 := by
-      simp [UInt8.toNat_ofNat']
-    rw [h1, Nat.pow_succ, Nat.mul_comm (256 ^ len) 256, Nat.mod_mul]
-    omega
-
-theorem beBytes_beNat : ∀ (len : Nat) (b : Bytes), b.length = len → beBytes len (beNat b) = b
-  | 0, b, hl => by
-    have : b = [] := List.eq_nil_of_length_eq_zero hl
-    subst this; rfl
-  | len + 1, b, hl => by
-    have hne : b ≠ [] := by intro h0; subst h0; simp at hl
-    have hb : b = b.dropLast ++ [b.getLast hne] := (List.dropLast_concat_getLast hne).symm
-    have hl' : b.dropLast.length = len := by simp [List.length_dropLast, hl]
-    rw [hb, beBytes, beNat_append_single]
-    have hx : (b.getLast hne).toNat < 256 := UInt8.toNat_lt _
-    have h1 : (beNat b.dropLast * 256 + (b.getLast hne).toNat) / 256 = beNat b.dropLast := by omega
-    have h2 : (beNat b.dropLast * 256 + (b.getLast hne).toNat) % 256 = (b.getLast hne).toNat := by omega
-    rw [h1, h2, beBytes_beNat len _ hl']
-    simp
-
 /-! ### digests and bytes -/
 
 theorem Digest.bytes_length (d : Digest) : d.bytes.length = 32 := beBytes_length 32 d.val
@@ -910,12 +877,6 @@ theorem taggedCborOf_valid {e : Env} (he : Encodable e) (hs : EncShape e) : (tag
 
 /-! ### who establishes `EncShape` -/
 
-theorem Cbor.head_ne_nil (mt n : Nat) : Cbor.head mt n ≠ [] := by
-  unfold Cbor.head
-  dsimp only
-  repeat' split
-  all_goals simp
-
 /-- `SymmetricKey::encrypt_with_digest` with a 12-byte nonce and an AEAD whose tags are 16
 bytes yields an element of the shape the decoder demands -/
 theorem encShape_encryptWithDigest (A : Aead) (key nonce plaintext : Bytes) (d : Digest)
@@ -927,11 +888,11 @@ theorem encShape_encryptWithDigest (A : Aead) (key nonce plaintext : Bytes) (d :
   have := List.append_eq_nil_iff.mp h0
   exact Cbor.head_ne_nil _ _ this.1
 
-/-- ... and its `aad` declares the digest (uses the codec law `dec_enc`) -/
-theorem optDigest_encryptWithDigest (L : CodecLaws) (A : Aead) (key nonce plaintext : Bytes)
+/-- ... and its `aad` declares the digest (uses the codec law `Cbor.decEncLaw`) -/
+theorem optDigest_encryptWithDigest (A : Aead) (key nonce plaintext : Bytes)
     {d : Digest} (hd : d.Valid) :
     (encryptWithDigest A key nonce plaintext d).optDigest = some d := by
-  simp only [EncMsg.optDigest, encryptWithDigest, Cbor.dec?, L.dec_enc _ (digestCbor_valid d),
+  simp only [EncMsg.optDigest, encryptWithDigest, Cbor.dec?, Cbor.decEncLaw _ (digestCbor_valid d),
     digestOfCbor_digestCbor hd]
 
 /-- `Compressed::from_uncompressed_data` with a 32-bit CRC and a `u64` length -/
@@ -957,13 +918,13 @@ def legacyNormBytes (b : Bytes) : Bytes :=
 /-- no `#6.24` leaf at an envelope position of the tree these bytes decode to -/
 def NoLegacyLeaf (b : Bytes) : Prop := ∀ c, Cbor.dec b = .ok c → hasLegacyLeaf c = false
 
-theorem legacyNormBytes_of_no_legacy (L : CodecLaws) {b : Bytes} (hb : NoLegacyLeaf b) :
+theorem legacyNormBytes_of_no_legacy {b : Bytes} (L : EncDecAt b) (hb : NoLegacyLeaf b) :
     legacyNormBytes b = b := by
   unfold legacyNormBytes
   split
   · rename_i c hc
     rw [legacyNorm_of_no_legacy c (hb c hc)]
-    exact (L.enc_dec b c hc).1
+    exact (L c hc).1
   · rfl
 
 /-- the shapes that decode to something that is not an assertion slot -/
